@@ -37,6 +37,18 @@ def subharnesses(tier):
                         topo, 'part', ''.join(map(str, parts)),
                         g1.ptag([a['place'] for a in apps]),
                         g1.evtag(ev)), spec))
+        # ---- moved to the other partition while its server is not up
+        for st in ('frozen', 'down'):
+            for pl in [(0, None, None), (0, 0, None), (0, None, 1)]:
+                apps = [{'place': j, 'alloc': ['p%d' % (j or 0)],
+                         'retention': 'sym'} for j in pl]
+                spec = {'topo': topo, 'D': D,
+                        'servers': [{'label': 'p0', 'state': st},
+                                    {'label': 'p1'}],
+                        'allocs': allocs, 'apps': apps,
+                        'event': ['move_app', 0, ['p1']]}
+                subs.append((_name(topo, 'part-inactive', st, g1.ptag(pl)),
+                             spec))
         # ---- a server changes partition under its instances
         for pl in [(0, 0, None), (0, None, 1), (None, 0, 0), (0, 1, None)]:
             apps = [{'place': j, 'alloc': ['p0']} for j in pl]
